@@ -509,7 +509,11 @@ class Unit:
             default=self.default_input_locale,
         )
 
-        _length = length if length else context.resolve(self.length_var)
+        _length = (
+            length
+            if length
+            else context.resolve(self.length_var, default=self.default_length)
+        )
 
         if _length not in ("short", "long", "narrow"):
             _length = self.default_length
